@@ -15,7 +15,7 @@ from . import storage
 HERE = os.path.dirname(os.path.dirname(os.path.abspath(__file__)))
 
 LOADER_KINDS = ("dict", "dictp", "cdict", "cdictp", "fs", "cfs", "fs2", "cfs2", "fsx", "cfsx",
-                "choice", "cchoice", "ns", "cns", "cnsf", "pkg")
+                "choice", "cchoice", "ns", "cns", "cnsf", "pkg", "nschoice")
 
 
 class Catalog:
@@ -63,11 +63,40 @@ def make_store(kind: str, partials: dict[str, str], mtime: float, tenants=("t1",
             st.write(f"_/{n}", s)
             for t in tenants:
                 st.write(f"{t}/{n}", f"[{t}]" + s)
+    elif base == "nschoice":
+        st = NsChoiceStore()
+        for n, s in partials.items():
+            st.write(f"_/{n}", s)
+            for t in tenants:
+                st.write(f"{t}/{n}", f"[{t}]" + s)
+            dict.__setitem__(st.fallback, n, "[fallback]" + s)
     elif base == "pkg":
         st = PkgStore()
     else:
         raise ValueError(kind)
     return st
+
+
+class NsChoiceStore(storage.NsStoreWrap):
+    """ChoiceLoader([namespace-aware loader, dict loader]): the delegate narrows by loader kwargs."""
+
+    kind = "nschoice"
+
+    def __init__(self) -> None:
+        super().__init__("tenant", "none", matter=False)
+        self.fallback = storage.LoggingDict(self.rlog, "d0")
+
+    def make_loader(self, caching: bool, **kw):
+        from liquid2 import ChoiceLoader
+
+        return ChoiceLoader([storage.NsLoader(self.store, self.ns_key, "none", False),
+                             storage.ParkedDictLoader(self.fallback)])
+
+    def clone(self):
+        c = NsChoiceStore()
+        c.store.data = dict(self.store.data)
+        dict.update(c.fallback, self.fallback)
+        return c
 
 
 class PkgStore(storage.Store):
